@@ -181,7 +181,9 @@ PROPS["C11"] = dict(
 
 def amg_configs(mode, quick_np, thorough_np):
     def configs(tier, seed):
-        return [{"tag": f"h_amg-{mode}-np{n}", "harness": "h_amg", "np": n, "args": [mode], "env": {"PPN": 2}} for n in nps(tier, quick_np, thorough_np)]
+        # PPN divides np (ragged last nodes are the known node-aware finding, exercised by C03/C04)
+        return [{"tag": f"h_amg-{mode}-np{n}", "harness": "h_amg", "np": n, "args": [mode],
+                 "env": {"PPN": 2 if n % 2 == 0 else n}} for n in nps(tier, quick_np, thorough_np)]
     return configs
 
 
@@ -216,4 +218,14 @@ PROPS["C10"] = dict(
     rule=AMG_RULE + ("SPD families only, one process, SOR/SSOR with weight 1; manufactured solution; the A-norm of the error is evaluated after every cycle."),
     trusted=COMMON_TRUST + ["energy norm evaluated at double precision with relative slack 1e-9"],
     assumptions=["rounding error (theorem over the reals)"],
+)
+
+PROPS["C08"] = dict(
+    module="RaptorModel.Props.C08",
+    harnesses=["h_amg"],
+    configs=amg_configs("C08", [1, 2, 3, 4], [1, 2, 3, 4, 5, 7, 8, 16]),
+    rule=AMG_RULE + ("After the real setup the whole hierarchy (per level: global triplets of A and P, per-rank sizes, work-vector sizes, row maps) is "
+          "dumped; the driver recomputes P^T A P and evaluates conformity, size sums, column-map ranges, strict coarsening and the stopping rule."),
+    trusted=COMMON_TRUST + ["Galerkin product recomputed at double precision, tolerance 1e-8 relative to the largest coarse entry"],
+    assumptions=["coarsening quality is not part of the property"],
 )
